@@ -639,6 +639,7 @@ func (mgr *Manager) importPcapJob(filenames []string, nextStreamID uint64, exist
 		newStreamCount += idx.StreamCount()
 		newPacketCount += idx.PacketCount()
 	}
+	verifGate("import")
 	mgr.jobs <- func() {
 		mgr.allStreams = allStreams
 		existingIndexesReleaser.release(mgr)
@@ -759,6 +760,7 @@ func (mgr *Manager) mergeIndexesJob(offset int, indexes []*index.Reader, release
 		streamsDiff -= idx.StreamCount()
 		packetsDiff -= idx.PacketCount()
 	}
+	verifGate("merge")
 	mgr.jobs <- func() {
 		// replace old indexes if successfully created
 		if len(mergedIndexes) == 0 || err != nil {
@@ -812,6 +814,7 @@ func (mgr *Manager) updateTagJob(name string, t tag, tagDetails map[string]query
 		t.Matches = bitmask.LongBitmask{}
 	}
 	t.Uncertain = bitmask.LongBitmask{}
+	verifGate("tag", name)
 	mgr.jobs <- func() {
 		// don't touch the tag if it was modified
 		if ot, ok := mgr.tags[name]; ok && ot.definition == t.definition {
@@ -1537,6 +1540,7 @@ func (mgr *Manager) convertStreamJob(allConverters []*converters.CachedConverter
 		}
 	}
 
+	verifGate("convert")
 	mgr.jobs <- func() {
 		mgr.converterJobRunning = false
 
